@@ -207,9 +207,9 @@ MULTI['C05'] = dict(
     parts=[_k_token('TOKEN-STR', TOK_MEANING), _v('token', TOKEN_ALLOWED), _v('list', LIST_ALLOWED)],
     assumptions=TOKEN_ASSUME + [
         'Verus (unit TOKEN): HandRangeToken::into_iter on a well-formed token returns exactly expand_combos(t) in order, each with the token\'s weight; RankPair::into_iter returns combos_seq(rp); lemma_combos_pocket/suited/ofsuit: combos_seq is the first-principles suit enumeration (6 / 4 / 12)',
-        'Kani: for all ranks / suits (symbolic) each of the 7 token shapes without weight parses to the value it denotes with weight 1; every shape carries a \':0.5\' suffix (the value parse_probability gives for that suffix -- one symbolic f32 in [0,1] under the abstraction), \':1\' is carried, \':1.5\' is rejected',
+        'Kani: for all ranks / suits (symbolic) each of the 7 token shapes without weight parses to the value it denotes with weight 1; every shape carries a \':0.5\' suffix (the value parse_probability gives for that suffix -- one symbolic f32 in [0,1] under the abstraction), \':0\' and \':1\' are carried (that weights above 1 are rejected is C10\'s obligation: tok_wf_weighted_*)',
     ] + LIST_ASSUME,
-    bounded=['weights other than none / :0 / :1 / :1.5 are covered only through the parse_probability abstraction'],
+    bounded=['weights other than none / :0 / :1 / :0.5 are covered only through the parse_probability abstraction'],
     not_decided=['what String::replace(" ", "") and str::split(",") return (std, assumed to strip blanks and split at commas)'],
     samples=[
         {'obligation': 'HandRangeToken::into_iter postcondition', 'clause': 'token_wf(self) ==> res@.len() == expand_combos(self).len() && forall i. res@[i].0 == expand_combos(self)[i] && res@[i].1 == self.probability'},
